@@ -53,6 +53,10 @@ def st_program(draw, max_points=6, max_edits=30, samplers=True, forks=False, sam
             # nearly all points go into the first top-level clone, so that one clone ends up with > 24 data points
             kind = draw(st.sampled_from(["add_root_clone"] * 9 + ["new_clone"]))
             ops.append([kind, 0 if kind == "add_root_clone" else draw(sel), draw(sel), draw(sel)])
+        elif sampler_heavy and len(ops) % 2 == 0:
+            # deep chains: every other placement puts a new clone above ALL current top-level clones, so the real sampler
+            # moves that follow see three and more nested clones (moves between a clone and its grandchildren)
+            ops.append([draw(st.sampled_from(["new_clone", "new_clone_then_add"])), 0xFFFF, draw(sel), draw(sel)])
         else:
             ops.append([draw(st.sampled_from(PLACE_OPS)), draw(sel), draw(sel), draw(sel)])
         if draw(st.integers(0, 3)) == 0:
